@@ -1,5 +1,5 @@
 #!/bin/bash
-# usage: rftest_all.sh [binary]  — runs every refactor patch under /tmp/rf/out/*/ against all checks, areas in parallel.
+# usage: rftest_all.sh [binary]  — runs every refactor patch under ${RF_DIR:-/verif/refactors}/*/ against all checks, areas in parallel.
 # Output: /tmp/rfall/<area>.out ; summary on stdout.
 BIN=${1:-/verif/bin/rqcheck}
 export GOFLAGS=-mod=mod GOPROXY=off GOSUMDB=off GOTOOLCHAIN=local PATH=/opt/veriftools/go1.26.8/bin:$PATH; unset GOWORK
@@ -10,7 +10,7 @@ run_area() {
   [ -d $W ] || git -C /repo worktree add -q --detach $W HEAD
   mkdir -p $V/checker/testdata && cp /verif/known_findings.json $V/ && ln -sfn /verif/checker/testdata/fixtures $V/checker/testdata/fixtures
   : > /tmp/rfall/$A.out
-  for f in /tmp/rf/out/$A/[0-9]*.diff; do
+  for f in ${RF_DIR:-/verif/refactors}/$A/[0-9]*.diff; do
     git -C $W checkout -q --detach $HEAD && git -C $W reset -q --hard && git -C $W clean -qfd
     if ! git -C $W apply $f 2>/dev/null; then echo "$A/$(basename $f): DOES-NOT-APPLY" >> /tmp/rfall/$A.out; continue; fi
     out=$($BIN -prop all -tier quick -repo $W -verif $V 2>&1)
@@ -22,7 +22,7 @@ run_area() {
   git -C $W reset -q --hard
 }
 export -f run_area; export BIN HEAD
-ls /tmp/rf/out | grep -E "${AREAS:-.}" | xargs -P ${PAR:-4} -I{} bash -c 'run_area {}'
+ls ${RF_DIR:-/verif/refactors} | grep -E "${AREAS:-.}" | xargs -P ${PAR:-4} -I{} bash -c 'run_area {}'
 total=$(cat /tmp/rfall/*.out | grep -c 'alarms:'); bad=$(cat /tmp/rfall/*.out | grep 'alarms:' | grep -vc 'alarms: \[\]')
 echo "refactor patches: $total run, $bad with alarms"
 cat /tmp/rfall/*.out | grep 'alarms:' | grep -v 'alarms: \[\]'
